@@ -37,13 +37,13 @@ def wChainOptIn : List Authn :=
     { id := "basic", typ := .basic "user" "secret" },
     { id := "anon", typ := .anonymous "" } ]
 
-/-- `T1` is a JWT with a bad signature, `dXNlcjpwdw==` is `user:pw` -/
+/-- `hdr.pay.sig` is a JWT (ES256) with a bad signature, `dXNlcjpwdw==` is `user:pw` -/
 def wWorld : World :=
   { basic := [("dXNlcjpwdw==", ["user", "pw"]), ("dXNlcjpzZWNyZXQ=", ["user", "secret"])],
-    parses := ["T1"],
-    jwt := [(("jwt", "T1"), .fail .signature .foreign)] }
+    headerAlg := [("hdr.pay.sig", .ES256)],
+    jwt := [(("jwt", "hdr.pay.sig"), .fail .signature .foreign)] }
 
-def wReqBadJwt : Req := { headers := [("Authorization", "Bearer T1")] }
+def wReqBadJwt : Req := { headers := [("authorization", "Bearer hdr.pay.sig")] }
 def wReqOpaque : Req := { headers := [("Authorization", "Bearer opaque")] }
 def wReqNone : Req := {}
 def wReqWrongPassword : Req := { headers := [("Authorization", "Basic dXNlcjpwdw==")] }
@@ -83,6 +83,16 @@ example : wFile.authenticatorOk Facts.introspectionEntry = true ∧
     ({ wFile with entry := [.k .authentication] :: wFile.entry.drop 1 } :
       FileFacts).authenticatorOk Facts.introspectionEntry = false := by decide
 
+/-- an additional guard in `Execute` that writes no argument error (e.g. a length limit answering with an
+authentication error) does not disturb the obligation; a guard with a run-time cause in front of the extraction, or
+one that writes an argument error, does -/
+example : ({ wFile with entry := wFile.entry ++ [[.k .authentication]] } :
+      FileFacts).authenticatorOk Facts.introspectionEntry = true ∧
+    ({ wFile with entry := [.k .internal, .dyn] :: wFile.entry } :
+      FileFacts).authenticatorOk Facts.introspectionEntry = false ∧
+    ({ wFile with entry := wFile.entry ++ [[.k .authentication, .k .argument]] } :
+      FileFacts).authenticatorOk Facts.introspectionEntry = false := by decide
+
 /-- the composite extractor: today's shape passes, also with a guard that fails closed; masking the collected
 errors with another sentinel does not -/
 example : (⟨[[.dyn]], [], [.dyn]⟩ : FileFacts).compositeExtractorOk = true ∧
@@ -118,6 +128,12 @@ theorem c04_source_rejection_sites_are_argument_free (c : Err) (hc : c.is .argum
   · exact h1.1.2 s hs
   · exact h0.1.2 s hs
 
+/-- `jwt.ParseSigned` is told to accept exactly the signature algorithms the model knows as supported (as sets): a
+token naming one of them is a credential of the `jwt` authenticator, whatever happens to it afterwards. -/
+theorem c04_gen_supported_algorithms :
+    Gen.supportedAlgorithms.all supportedAlgs.contains = true ∧
+    supportedAlgs.all Gen.supportedAlgorithms.contains = true := by decide
+
 /-- The loop of the composite goes on exactly on `errors.Is(err, ErrArgument) || IsFallbackOnErrorAllowed()`, and no
 other file of the packages the authenticators call into mentions `heimdall.ErrArgument`. -/
 theorem c04_gen_composite_guard :
@@ -142,7 +158,7 @@ theorem c04_extraction (ss : List Strategy) (r : Req) (hne : ss ≠ []) :
   extract_cases ss r hne
 
 example : extract defaultSources wReqNone = .error (.chain [argErr, argErr, argErr]) := by decide
-example : extract defaultSources wReqBadJwt = .ok "T1" := by decide
+example : extract defaultSources wReqBadJwt = .ok "hdr.pay.sig" := by decide
 
 /-- No error value of the model's vocabulary constructed after a credential was found (bad signature, unknown key, failed assertion, inactive
 token, wrong password, undecodable Basic value, unreachable endpoint, unusable response, missing subject, …) is an
@@ -180,6 +196,59 @@ example : ∃ e, wChain[0].execute wWorld wReqOpaque = .error e ∧ e.is .argume
 theorem c04_success_needs_usable_credentials (w : World) (a : Authn) (r : Req) (s : String)
     (ha : a.wf = true) (h : a.execute w r = .ok s) : usable w a r = true :=
   execute_ok_usable w a r s ha h
+
+/-- **Fallback on error is an opt-in**: without `allow_fallback_on_error` in the mechanism definition and in the
+rule's step there is none; a setting of the rule's step overrides the definition in both directions; otherwise the
+definition decides. -/
+theorem c04_fallback_is_opt_in (a : Authn) :
+    (a.allowFallback = none → a.override = none → a.fallback = false) ∧
+    (∀ b, a.override = some b → a.fallback = true → b = true) ∧
+    (∀ b, a.override = none → a.allowFallback = some b → a.fallback = true → b = true) ∧
+    (a.fallback = true → a.override = some true ∨ (a.override = none ∧ a.allowFallback = some true)) := by
+  obtain ⟨id, typ, af, ov, key⟩ := a
+  cases typ <;> cases af <;> cases ov <;> simp [Authn.fallback]
+
+example : ({ id := "a", typ := .jwt defaultSources } : Authn).fallback = false ∧
+    ({ id := "a", typ := .jwt defaultSources, allowFallback := some true } : Authn).fallback = true ∧
+    ({ id := "a", typ := .jwt defaultSources, allowFallback := some true, override := some false } : Authn).fallback
+      = false ∧
+    ({ id := "a", typ := .unauthorized, allowFallback := some true, override := some true } : Authn).fallback
+      = false := by decide
+
+/-- **What a JWT is**: the `jwt` authenticator found usable credentials exactly if the value at the first of its
+sources carrying one has the form of a JWS compact serialisation (three base64url parts separated by dots) whose
+header names a supported signature algorithm — whoever signed it, whatever it claims. Anything else (opaque
+tokens, `alg: none`, unknown algorithms) is no credential of its kind. -/
+theorem c04_what_a_jwt_is (w : World) (a : Authn) (r : Req) (ss : List Strategy) (h : a.typ = .jwt ss) :
+    usable w a r = true ↔
+      ∃ tok, credential ss r = some tok ∧ isCompactJWS tok = true ∧
+        ∃ p, w.headerAlg.find? (fun p => p.1 == tok) = some p ∧ p.2 ∈ supportedAlgs := by
+  obtain ⟨id, typ, af, ov, key⟩ := a
+  simp only at h
+  subst h
+  simp only [usable, World.parsesJWT]
+  cases credential ss r with
+  | none => simp
+  | some tok =>
+    cases hf : w.headerAlg.find? (fun p => p.1 == tok) with
+    | none => simp [hf]
+    | some p =>
+      obtain ⟨t, alg⟩ := p
+      simp only [hf, List.contains_iff_mem, Bool.and_eq_true, decide_eq_true_eq, Option.some.injEq]
+      constructor
+      · rintro ⟨h1, h2⟩
+        exact ⟨tok, rfl, h1, (t, alg), hf, h2⟩
+      · rintro ⟨tok', rfl, h1, p, hp, h2⟩
+        rw [hf] at hp
+        cases hp
+        exact ⟨h1, h2⟩
+
+example : isCompactJWS "hdr.pay.sig" = true ∧ isCompactJWS "opaque" = false ∧ isCompactJWS "a.b" = false ∧
+    isCompactJWS "a.b.c.d" = false ∧ isCompactJWS "he+ad.pay.sig" = false ∧ isCompactJWS "h.pay.sig" = false ∧
+    isCompactJWS "eyJhbGciOiJub25lIn0.e30." = true := by decide
+
+/-- `alg: none`: of JWS form, but no supported algorithm — no credential of the `jwt` kind -/
+example : wWorld.parsesJWT "eyJhbGciOiJub25lIn0.e30." = false ∧ wWorld.parsesJWT "hdr.pay.sig" = true := by decide
 
 /-- `anonymous` never fails; `unauthorized` always fails with an authentication error that is no argument error;
 neither ever allows fallback, whatever the configuration says. -/
